@@ -364,7 +364,7 @@ def run(run):
                                 return '+'.join(map(str, t)) if t else 'e'
                             lat_s = 'none'
                             if rng.random() < .5:
-                                lat = ctx.lattice._tolist()
+                                lat = ctx.todict()['lattice']
                                 lat_s = ';'.join('|'.join(tup(x) for x in e) for e in lat) if lat else '_'
                             text = ctx.tostring('python-literal')
                             if ("'lattice'" in text) != (lat_s != 'none'):
@@ -380,10 +380,10 @@ def run(run):
                             if mback != want_back:
                                 run.fail('Lean python-literal reader on the emitted text', mback, want_back, reqs, dict(extra, text=text))
                             back, mload, strict = Context.fromstring(text, 'python-literal'), None, None
-                            if (lat_s != 'none') != ('lattice' in back.__dict__):
+                            if (lat_s != 'none') != ("'lattice'" in back.tostring('python-literal')):
                                 run.fail('python-literal: the stored lattice is loaded iff it was written', None, None, reqs, extra)
-                            if lat_s != 'none' and back.lattice._tolist() != ctx.lattice._tolist():
-                                run.fail('python-literal: reloaded lattice', back.lattice._tolist(), ctx.lattice._tolist(), reqs, extra)
+                            if lat_s != 'none' and back.todict()['lattice'] != ctx.todict()['lattice']:
+                                run.fail('python-literal: reloaded lattice', back.todict()['lattice'], ctx.todict()['lattice'], reqs, extra)
                         if back != ctx or not (back == ctx):
                             run.fail('fromstring(tostring(%s)) != context' % frmat, [back.objects, back.properties, back.bools], [objs, props, bools], reqs, dict(extra, text=text))
                         if mload is not None and parse_triple(mload) != (objs, props, bools):
